@@ -104,7 +104,7 @@ def configs(tier, seed):
                   modes=["base", "remote"] if th else ["remote"])
     # readers change nothing: a logical expression compares two referenced numbers given in different units BEFORE
     # one of them is injected / imported (again)
-    compare = dict(name="compare", T=[a_f, tpl("b", "float", num(k), u2), gx_c, tpl("n", "int", num(k + 1), u1)],
+    compare = dict(name="compare", T=[a_f, tpl("b", "float", num(k), u2), gx_c, tpl("n", "float", num(k + 1), u1)],
                    M=[m_f2], SL=[], HU=[u2], bounds=B(3 if th else 2, 1 if th else 0, 1, 1 if th else 0, fewhosts=True, cmp=1),
                    modes=["base"] if th else [])
     cfgs += [zeros, custom, compare]
@@ -313,6 +313,57 @@ def replay_hist(hist):
     return None
 
 
+# ----------------------------------------------------------------------------- remote files across parses (DipRemote.tla)
+
+REMOTE_VALS = {"inner": [1, 2], "A": 3, "B": 4}
+
+
+def remote_cfg(maxops, cache, emit):
+    return f"""CONSTANTS
+  InnerVals = {C.tla_str(set(REMOTE_VALS['inner']))}
+  CfgA = {REMOTE_VALS['A']}
+  CfgB = {REMOTE_VALS['B']}
+  MaxOps = {maxops}
+  Cache = "{cache}"
+  Emit = {C.tla_str(emit)}
+SPECIFICATION Spec
+INVARIANT FreshResult
+INVARIANT EmitInv
+CHECK_DEADLOCK FALSE
+"""
+
+
+def replay_remote(hist):
+    """One history of file edits and parses inside this process.  -> None | detail"""
+    d = os.path.join(_WD[0] or "/var/tmp/snt-c17-replay", f"w{os.getpid()}", "remote")
+    os.makedirs(d, exist_ok=True)
+    W = lambda n, t: open(os.path.join(d, n), "w").write(t)
+    W("inner.dip", f"v float = {min(REMOTE_VALS['inner'])} m\n")
+    W("cfgA.dip", f"v float = {REMOTE_VALS['A']} m\n")
+    W("cfgB.dip", f"v float = {REMOTE_VALS['B']} m\n")
+    W("outerN.dip", "$source inner = inner.dip\ng float = {inner?v}\n")
+    W("outerI.dip", "g float = {cfg?v}\n")
+    texts = []
+    for n, op in enumerate(hist):
+        if op["op"] == "set":
+            W("inner.dip", f"v float = {op['v']} m\n")
+            texts.append(f"inner.dip: v float = {op['v']} m")
+            continue
+        if op["kind"] == "N":
+            text = f"$source model = {d}/outerN.dip\n"
+        else:
+            text = f"$source cfg = {d}/cfg{op['kind'][1]}.dip\n$source model = {d}/outerI.dip\n"
+        text += "x float = {model?g}\nh {model?*}\n"
+        texts.append(text)
+        keep = []
+        res, env = A.parse_on(None, text, f"c17r{n}", keep)
+        want = {"x": [op["expect"], "m"], "h.g": [op["expect"], "m"]}
+        obs = A.env_data(env) if res == "ok" else res
+        if res != "ok" or not A.same_data(obs, want):
+            return {"step": n + 1, "texts": texts, "expected": want, "observed": obs}
+    return None
+
+
 # ----------------------------------------------------------------------------- the check
 
 class C17Jobs:
@@ -399,6 +450,9 @@ def run(replay=None):
     jobs["base"] = lambda sub, w: run_base_tlc(sub, bt, ct, maxops, workers=w)
     for mode in ("alias_if_no_nodes", "share_branching", "alias"):
         jobs["base-sens:" + mode] = lambda sub, w, mode=mode: run_base_tlc(sub, bt, ct, 3, mode=mode, emit=False, workers=w)
+    rops = 3 if tier == "quick" else 5
+    jobs["remote"] = lambda sub, w: C.run_tlc(sub, "DipRemote", remote_cfg(rops, "off", True), workers=w)
+    jobs["remote-sens"] = lambda sub, w: C.run_tlc(sub, "DipRemote", remote_cfg(3, "memo", False), want_records=False, workers=w)
     jobs["nocopy"] = lambda sub, w: run_tlc(sub, cf0, copy_on_parse=False, emit=False, workers=w)
     jobs.update(Q.tlc_jobs(tier, seed))
     get = C17Jobs(jobs, wd, parallel=(tier == "quick")).get
@@ -483,6 +537,23 @@ def run(replay=None):
     nontrivial += sum(1 for h in hists if len(h) >= 3 and len({op["base"] for op in h[1:]}) < len(h) - 1)
     samples.append({"cfg": "base-histories", "calls": [{"op": op["op"], "base": op["base"],
                     "text": A.render_base_text(op["text"], "<workdir>"), "res": op["res"]} for op in hists[len(hists) // 2]]})
+    # ---- remote files across the parses of one process (DipRemote.tla)
+    rr = get("remote")
+    if rr.violated:
+        raise C.MachineryError(f"DipRemote: {rr.violated} violated with Cache off")
+    rhists = rr.records
+    for h, det in zip(rhists, [replay_remote(h) for h in rhists]):
+        if det is None:
+            V.ok()
+        else:
+            V.fail({"hist": h, "texts": det["texts"]}, det["expected"], det["observed"],
+                   f"call {det['step']}: {{model?g}} and {{model?*}} deliver what the remote file, its nested file and the "
+                   "parent's sources hold when this parse runs", tags=["remote-history"], failure="remote-history")
+    rsens = get("remote-sens").violated or "none"
+    if rsens != "FreshResult":
+        V.notes.append("DipRemote sensitivity: Cache memo did not violate FreshResult")
+    states += rr.distinct; trans += rr.generated; nrec += len(rhists)
+    per_cfg["remote-histories"] = len(rhists)
     # sensitivity of BaseUnchanged: the parse that does not copy the base environment must be caught by TLC
     r0 = get("nocopy")
     # ---- growth beyond the property (DESIGN 6): node selection and user functions
@@ -506,6 +577,7 @@ def run(replay=None):
         "failures_by_kind": {f"{h}|{f}|{' '.join(t)}": n for (h, f, t), n in sorted(stats.items(), key=lambda kv: -kv[1])[:40]},
         "spec_sensitivity_without_copy": r0.violated or "none",
         "base_history_sensitivity": sens,
+        "remote_history_sensitivity": rsens,
     })
     if r0.violated != "BaseUnchanged":
         V.notes.append("sensitivity run without copy.deepcopy did not violate BaseUnchanged: " + str(r0.violated))
